@@ -356,6 +356,11 @@ func (ec *evalCtx) seqOf(v Val, e spec.Expr) *smt.Term {
 	case smt.Slice:
 		return ec.fc.seqOfSlice(ec.cur, t)
 	}
+	if ec.fc.missingCall != "" {
+		// the clause reads the result of a call that no longer exists on any path as a
+		// sequence: nothing can be proved about it
+		panic(missingCallPanic{ec.fc.missingCall})
+	}
 	ec.fail("expected a sequence in %s (sort %s)", e, t.Sort)
 	return nil
 }
